@@ -56,7 +56,7 @@ func catalogue(prop string) []Mutant {
 	sort.Strings(dirs)
 	for _, d := range dirs {
 		id := filepath.Base(filepath.Dir(d))
-		p := strings.SplitN(strings.TrimPrefix(id, "r2-"), "-", 2)[0]
+		p := strings.SplitN(strings.TrimPrefix(strings.TrimPrefix(id, "r2-"), "r3-"), "-", 2)[0]
 		if prop == "all" || p == prop {
 			ms = append(ms, Mutant{ID: "seeded/" + id, Property: p, patch: d})
 		}
